@@ -96,10 +96,10 @@ func ledgerStrata() []stratum {
 		}), 1},
 		{"wide40", with(func(c *gen.LCfg) {
 			// long flat lists: more than 32 funded draws in one statement, accounts repeated
-			c.Accounts = manyAccountsL(40)
+			c.Accounts = manyAccountsL(60)
 			c.Assets = []string{"USD"}
-			c.PLongSrc, c.PFunded = 50, 80
-			c.Depth, c.Fanout, c.MinStmts, c.MaxStmts = 1, 48, 1, 4
+			c.PLongSrc, c.PFunded = 60, 92
+			c.Depth, c.Fanout, c.MinStmts, c.MaxStmts = 1, 60, 1, 4
 			c.PSrcSeq, c.PDstSeq, c.PSrcCap, c.PSrcAllot, c.PDstAllot, c.PRepeat, c.PWorld, c.PAbsent, c.PSave = 70, 40, 10, 5, 10, 25, 2, 3, 20
 		}), 2},
 		{"assets-origins", with(func(c *gen.LCfg) {
